@@ -56,6 +56,7 @@ def _run_harness(lines, binary, timeout_per_case=10.0):
     return out
 
 
+ISOLATE = False      # set by a check whose cases must each run in a fresh process
 FEATURES = None      # set by a check that needs a harness built with a cargo feature
 
 
@@ -63,11 +64,13 @@ def run_cases(lines, release=False, want_model=True, want_impl=True, nshards=Non
     """lines: list of case lines (with trailing newline).  Returns {id: {tag: [fields...]}}"""
     nshards = nshards or max(1, min(NPROC, len(lines) // 50 + 1))
     shards = [lines[i::nshards] for i in range(nshards)]
+    if ISOLATE:
+        shards = [[l] for l in lines]          # one fresh process per case
     binary = HARNESS_RELEASE if release else HARNESS_DEBUG
     if FEATURES:
         binary = binary.replace(os.path.join(BUILD, "cargo"), os.path.join(BUILD, "cargo-" + FEATURES))
     res = {}
-    with ThreadPoolExecutor(max_workers=2 * nshards) as ex:
+    with ThreadPoolExecutor(max_workers=2 * NPROC) as ex:
         futs = []
         for sh in shards:
             if not sh:
